@@ -209,6 +209,124 @@ fn s7() {
     check("S7 re-test on the used object", &f(&again), &f(&exp));
 }
 
+// ---------------------------------------------------------------------------------------
+// Generated scenarios: `G <k>` derives a tiny multi-threaded script from the integer k
+// (pattern, flags, inputs, 2-3 threads, 2-3 operations each, optionally an in-thread
+// compilation of the same pattern). Miri's seed then picks the schedule. Expectations are
+// computed beforehand by the main thread on a separate fresh object.
+
+fn sm(state: &mut u64) -> u64 {
+    *state = state.wrapping_add(0x9E37_79B9_7F4A_7C15);
+    let mut z = *state;
+    z = (z ^ (z >> 30)).wrapping_mul(0xBF58_476D_1CE4_E5B9);
+    z = (z ^ (z >> 27)).wrapping_mul(0x94D0_49BB_1331_11EB);
+    z ^ (z >> 31)
+}
+
+/// (pattern, flags, inputs): cheap to compile under Miri (no general-category sets).
+const GEN: &[(&str, &str, &[&str])] = &[
+    (r"(?:ab|c)*d", "", &["abcd", "ccabd-d", "xd"]),
+    (r"(a|ab)(c|bcd)*(d*)", "", &["abcd", "acdd-ab"]),
+    (r"(a+)b\1", "", &["aabaa", "aba-aabaa"]),
+    (r"^([a-z]+) \1$", "m", &["hey hey\nyo yo", "a b"]),
+    (r"[a-cf-hk-mp-rt-vx-z0-24-68-9A-C]+", "", &["abc-xyz", "0123456789", "DEF"]),
+    (r"[a-z]+", "i", &["Hello World", "ABC"]),
+    (r"(k7x)?z*", "", &["k7xzz k9x", "zz"]),
+    (r"\p{IsGreek}+|\p{IsCyrillic}+", "", &["abγδ жx", "αβ"]),
+    (r"(?:x|(a))(b)c", "", &["abd xbc", "abc"]),
+    (r"a.c", "s", &["a\nc abc", "ac"]),
+    (r"(x)?(y)?z", "", &["xyz yz z", "xz"]),
+    (r"a b c", "x", &["abc", "a b c"]),
+    (r"a.b", "q", &["a.b axb", "a.b.a.b"]),
+    (r"[ ,]+", "", &["a b, c", "   "]),
+    (r"^a", "m", &["a\na\nb", "b\na"]),
+    (r"([0-9]+)-([0-9]+)", "", &["10-20 3-4", "a-b"]),
+];
+
+#[derive(Clone)]
+enum GOp {
+    All(usize),
+    Interleave(usize),
+    CompileOwn(usize),
+}
+
+fn run_gop(shared: &Regex, pat: &str, flags: &str, inputs: &[&str], op: &GOp) -> Vec<String> {
+    match op {
+        GOp::All(i) => render_all(shared, inputs[*i], "<$1>"),
+        GOp::CompileOwn(i) => {
+            let own = Regex::xpath(pat, flags).unwrap();
+            render_all(&own, inputs[*i], "<$1>")
+        }
+        GOp::Interleave(i) => {
+            // two partially consumed iterators and a plain call in between
+            let mut out = Vec::new();
+            let t = shared.tokenize(inputs[*i]);
+            let a = shared.analyze(inputs[*i]);
+            match (t, a) {
+                (Ok(mut t), Ok(mut a)) => loop {
+                    let x = t.next();
+                    let y = a.next().map(|e| format!("{:?}", e));
+                    out.push(format!("m={}", shared.is_match(inputs[*i])));
+                    if x.is_none() && y.is_none() {
+                        break;
+                    }
+                    out.push(format!("{:?}/{:?}", x, y));
+                },
+                (t, a) => out.push(format!("{:?}/{:?}", t.err(), a.err())),
+            }
+            out
+        }
+    }
+}
+
+fn generated(k: u64) {
+    let mut st = k.wrapping_mul(0x2545_F491_4F6C_DD1D) ^ 0xC18;
+    let (pat, flags, inputs) = GEN[(sm(&mut st) % GEN.len() as u64) as usize];
+    let nthreads = 2 + (sm(&mut st) % 2) as usize;
+    let mut scripts: Vec<Vec<GOp>> = Vec::new();
+    for _ in 0..nthreads {
+        let n = 1 + (sm(&mut st) % 2) as usize;
+        let mut ops = Vec::new();
+        for _ in 0..n {
+            let i = (sm(&mut st) % inputs.len() as u64) as usize;
+            ops.push(match sm(&mut st) % 5 {
+                0 | 1 => GOp::All(i),
+                2 | 3 => GOp::Interleave(i),
+                _ => GOp::CompileOwn(i),
+            });
+        }
+        scripts.push(ops);
+    }
+    // expectations: same operations on a separate fresh object, nobody else running
+    let exp: Vec<Vec<Vec<String>>> = {
+        let fresh = Regex::xpath(pat, flags).unwrap();
+        scripts
+            .iter()
+            .map(|ops| ops.iter().map(|o| run_gop(&fresh, pat, flags, inputs, o)).collect())
+            .collect()
+    };
+    let shared = Arc::new(Regex::xpath(pat, flags).unwrap());
+    let mut hs = Vec::new();
+    for ops in scripts.clone() {
+        let re = shared.clone();
+        hs.push(thread::spawn(move || {
+            ops.iter()
+                .map(|o| run_gop(&re, pat, flags, inputs, o))
+                .collect::<Vec<_>>()
+        }));
+    }
+    for (t, h) in hs.into_iter().enumerate() {
+        let got = h.join().unwrap();
+        for (j, g) in got.iter().enumerate() {
+            check(&format!("G{} {:?} thread {} op {}", k, pat, t, j), g, &exp[t][j]);
+        }
+    }
+    // the used object must still answer like a fresh one
+    let again = render_all(&shared, inputs[0], "<$1>");
+    let fresh = Regex::xpath(pat, flags).unwrap();
+    check(&format!("G{} {:?} afterwards", k, pat), &again, &render_all(&fresh, inputs[0], "<$1>"));
+}
+
 fn main() {
     let which = std::env::args().nth(1).unwrap_or_else(|| "S1".to_string());
     match which.as_str() {
@@ -219,6 +337,12 @@ fn main() {
         "S5" => s5(),
         "S6" => s6(),
         "S7" => s7(),
+        "G" => generated(
+            std::env::args()
+                .nth(2)
+                .and_then(|s| s.parse().ok())
+                .unwrap_or(0),
+        ),
         // self-test of the stage's failure reporting
         "FAIL" => check("FAIL selftest", &["a".to_string()], &["b".to_string()]),
         other => {
@@ -226,5 +350,9 @@ fn main() {
             std::process::exit(2);
         }
     }
-    println!("scenario {} ok", which);
+    println!(
+        "scenario {}{} ok",
+        which,
+        std::env::args().nth(2).unwrap_or_default()
+    );
 }
